@@ -4372,9 +4372,14 @@ spmatrix_mul(PyObject *self, PyObject *other)
     spmatrix *ret = SpMatrix_NewFromSpMatrix((spmatrix *)
         (SpMatrix_Check(self) ? self : other), id);
 
+    if (!ret) return NULL;
+
     number val;
-    convert_num[id](&val, !SpMatrix_Check(self) ? self : other,
-        PY_NUMBER(other) || PY_NUMBER(self), 0);
+    if (convert_num[id](&val, !SpMatrix_Check(self) ? self : other,
+        PY_NUMBER(other) || PY_NUMBER(self), 0)) {
+      Py_DECREF(ret);
+      return NULL;
+    }
 
     scal[id]((int *)&SP_NNZ(ret), &val, SP_VAL(ret), (void *)&One[INT]);
     return (PyObject *)ret;
@@ -4445,7 +4450,8 @@ spmatrix_imul(PyObject *self, PyObject *other)
     PY_ERR_TYPE("invalid operands for inplace sparse multiplication");
 
   number val;
-  convert_num[SP_ID(self)](&val, other, !Matrix_Check(other), 0);
+  if (convert_num[SP_ID(self)](&val, other, !Matrix_Check(other), 0))
+    return NULL;
   scal[SP_ID(self)]((int *)&SP_NNZ(self), &val, SP_VAL(self),
       (void *)&One[INT]);
 
@@ -4465,7 +4471,7 @@ spmatrix_div_generic(spmatrix *A, PyObject *B, int inplace)
   int id  = MAX(idA,idB);
 
   number n;
-  convert_num[id](&n, B, (Matrix_Check(B) ? 0 : 1), 0);
+  if (convert_num[id](&n, B, (Matrix_Check(B) ? 0 : 1), 0)) return NULL;
 
   if (!inplace) {
     PyObject *ret = (PyObject *)SpMatrix_NewFromSpMatrix((spmatrix *)A, id);
